@@ -469,10 +469,11 @@ def check(tier: str, seed: int) -> dict[str, dict[str, Any]]:
                     fail('PassData.' + how.split('_')[0], how,
                          'field %s: %r, source has %r' % (k, got[k], want[k]))
             if how in ('copy', 'become_deep', 'pickle'):
-                if got_pd.placement is src.placement \
-                        or got_pd._data is src._data:
+                shared = _shared_mutables(got_pd, src)
+                if shared:
                     fail('PassData.' + how.split('_')[0], how,
-                         'shares mutable state with the source')
+                         'shares mutable state with the source: %s'
+                         % ', '.join(shared[:4]))
         except Exception as e:     # noqa: BLE001
             fail('PassData.' + how.split('_')[0], how,
                  'raised %s: %s' % (type(e).__name__, e))
@@ -510,6 +511,37 @@ def _less(c1: Any, c2: Any) -> bool:
 
 def _decide(c1: Any, c2: Any) -> bool:
     return True
+
+
+def _shared_mutables(a: Any, b: Any) -> list[str]:
+    """Paths of mutable containers (list / dict / set / ndarray) reachable
+    from both objects through containers and the attributes of pass data,
+    circuits and models (gates are immutable values and not entered)."""
+    from bqskit.compiler.machine import MachineModel as _MM
+
+    def walk(o: Any, path: str, out: dict[int, str], depth: int) -> None:
+        if depth > 6 or o is None or isinstance(
+            o, (int, float, complex, str, bytes, bool, tuple, frozenset),
+        ) and not isinstance(o, tuple):
+            return
+        if isinstance(o, (list, dict, set, np.ndarray)):
+            if id(o) in out:
+                return
+            out[id(o)] = path
+        if isinstance(o, dict):
+            for k, v in o.items():
+                walk(v, '%s[%r]' % (path, k), out, depth + 1)
+        elif isinstance(o, (list, tuple, set)):
+            for i, v in enumerate(o):
+                walk(v, '%s[%d]' % (path, i), out, depth + 1)
+        elif isinstance(o, (PassData, Circuit, _MM)):
+            for k, v in vars(o).items():
+                walk(v, '%s.%s' % (path, k), out, depth + 1)
+    ia: dict[int, str] = {}
+    ib: dict[int, str] = {}
+    walk(a, 'copy', ia, 0)
+    walk(b, 'source', ib, 0)
+    return sorted(ia[i] for i in ia if i in ib)
 
 
 def run(repo: str, tier: str, seed: int, jobs: int) -> dict:
